@@ -4,6 +4,8 @@ import glmxpy as G
 
 def run_simple(prop, spec, tier, known_ids, t0, args):
     cfgs = spec.get('configs', ['default'])
+    if tier == 'quick' and 'configs_quick' in spec:
+        cfgs = spec['configs_quick']
     parts = spec.get('parts')
     if parts:
         plist = list(range(parts)) if tier == 'thorough' else spec.get('quick_parts', list(range(parts)))
@@ -11,7 +13,7 @@ def run_simple(prop, spec, tier, known_ids, t0, args):
         plist = [None]
     jobs, meta = [], []
     for c in cfgs:
-        for k in plist:
+        for k in (spec.get('parts_by_config', {}).get(c, plist) if parts else plist):
             fl = tuple(spec.get('flags', [])) + ((f'-DGLMX_PART={k}',) if k is not None else ())
             tag = os.path.splitext(os.path.basename(spec['src']))[0] + (f'p{k}' if k is not None else '')
             jobs.append((spec['src'], c, fl, tag, (), tuple(spec.get('libs', []))))
@@ -288,6 +290,7 @@ _C20_TABLE_T = [('drivers/c01.cpp', list(range(15)), [], [])] + _C20_TABLE_Q[1:7
 
 PROPS = {
  'C17': dict(src='drivers/c17.cpp', level='model_checking', mc=mc_c17, parts=19, configs=['default', 'swizzle', 'intr_sse2', 'swizzle_intr_clang'],
+   parts_by_config={'default': [0] + list(range(4, 14)), 'swizzle': list(range(14)), 'intr_sse2': [0] + list(range(4, 14)), 'swizzle_intr_clang': list(range(19))},   # the other parts are empty in that configuration
    flags=['-DC17_HAVE_ALIGNED_UVEC2_SWIZZLE', '-DC17_HAVE_ALIGNED_VEC2_3LETTER', '-DC17_HAVE_VEC4_SSSV1'],
    technique='exhaustive enumeration of the program space: every 2-/3-/4-letter swizzle name over xyzw, rgba, stpq for source lengths 2-4 in the three implementations (member functions, operator/union proxies on packed and aligned types, gtx free functions), all write sequences over duplicate-free names up to a depth against an array model, and every constructor signature of vec1-4 / mat / qua enumerated from the declared overload shapes',
    text='Reads: the index tuple is derived from the NAME (letter -> index) by macro pasting, independent of GLM; every valid name x tag patterns, compared bit for bit. Writes (explicit-state): all sequences of 14 write forms (=vec, =scalar, += -= *= /=, cross-swizzle and self-aliasing forms) over duplicate-free names, array reference model after every step, exactly the named components change. Constructors: 1236 (2598 with aligned types) vector signatures per destination type x value patterns that make static_cast observable, all 49 (U,T) cross-type pairs, cross-qualifier, matrix diagonal/scalars/columns/cross-type, quaternion forms; four build configurations (default, GLM_FORCE_SWIZZLE, intrinsics, operator swizzles).',
@@ -308,6 +311,7 @@ PROPS = {
    rule='operation table x documented-precondition filter of each driver (out-of-domain inputs are skipped before GLM is called) x sanitizer configurations {clang pure, clang AVX2 in thorough}; evaluations are instrumented executions.'),
  'C16': dict(src='drivers/c16.cpp', level='exploration', parts=6, flags=['-O0'],
    configs=['default', 'swizzle', 'xyzw_only', 'size_t_length', 'quat_wxyz', 'ctor_init', 'cxx98', 'intr_sse2', 'intr_avx', 'intr_avx2', 'intr_avx2_defaligned', 'swizzle_intr'],
+   configs_quick=['default', 'xyzw_only', 'size_t_length', 'quat_wxyz', 'intr_sse2', 'intr_avx2_defaligned', 'swizzle_intr'],
    technique='exhaustive enumeration of the program space: every vec<L,T,Q>, mat<C,R,T,Q>, qua<T,Q> instantiation (L 1..4, C,R 2..4, 11 element types, packed and - with intrinsics - aligned qualifiers) x 12 build configurations, each layout fact observed by executing the generated program and compared with the documented contract',
    text='For every instantiation and configuration: sizeof, alignof, component addresses (&v[i] == &v.x + i, column addresses), named-member order incl. quaternion x,y,z,w / w,x,y,z, value_ptr aliasing value_ptr(m)[c*R+r] == m[c][r], byte image through value_ptr vs operator[], make_vec/make_mat/make_quat round trips, length() value and type (int / size_t), trivially-copyable round trip. Facts are observed at run time, so one wrong fact does not hide the rest; 462 (packed) or 924 (with aligned types) instantiations per configuration, complete.',
    rule='INSTANTIATIONS = complete table of type descriptors (kind|C|R|T|Q) per configuration; every fact op enumerates the whole table; quick and thorough are the same complete set.'),
